@@ -18,11 +18,11 @@ def build(name, N, wf, **kw):
                   % ("encodable " if wf else "", N, "" if wf else "; unencodable names refused"))
     d.update(kw); return d
 
-def longn(name, full, wf, **kw):
+def longn(name, full, last, wf=False, **kw):
     N = 64 * full + 66
     d = dict(name=name, harness="C36_query_build.c", entry="harness_long",
-             defines=["C36_N=%d" % N, "C36_FULL=%d" % full, "C36_STEPS=%d" % (full + 4)] + (["C36_ONLY_WELLFORMED"] if wf else []),
-             unwind=2, unwindset=["c36_check_query.0:%d" % (N + 2), "dnsref_name_encodable.0:%d" % (N + 2), "harness_long.0:%d" % (N + 3),
+             defines=["C36_N=%d" % N, "C36_FULL=%d" % full, "C36_STEPS=%d" % (full + 4)] + (["C36_LAST=%d" % last] if last is not None else []) + (["C36_ONLY_WELLFORMED"] if wf else []),
+             unwind=2, unwindset=["c36_check_query.0:%d" % (N + 2), "dnsref_name_encodable.0:%d" % (N + 2), "harness_long.0:%d" % (N + 3), "c36_run.0:%d" % (N + 120), "c36_run.1:%d" % (N + 120),
                                   "dnsname_to_labels.1:%d" % (full + 3), "strchr.0:67", "vp_memcpy.0:66", "dnsref_name.0:66", "dnsref_name.1:%d" % (full + 6)],
              timeout=600, mem_gb=6,
              desc="evdns_request_data_build on %d labels of 63 bytes + a last label of symbolic length 0..64 + optional trailing dot (label limit 63/64%s)"
@@ -31,5 +31,5 @@ def longn(name, full, wf, **kw):
 
 def obligations(tier):
     obs = [build("build_wf_N6", 6, True), build("build_all_N6", 6, False),
-           longn("long_f0", 0, False), longn("long_f3", 3, False)]
+           longn("long_f0_63", 0, 63), longn("long_f0_64", 0, 64), longn("long_f3_61", 3, 61), longn("long_f3_62", 3, 62)]
     return obs
